@@ -6,7 +6,7 @@ From Coq Require Import ZArith Bool List String Lia Permutation Sorted.
 From TV Require Import spec.Num spec.PyBase spec.PyLib model.GraphsIter.
 From TV Require Import gen.IRAst gen.Names gen.ExhaustAst gen.Exhaust gen.IterGraphs gen.GlueGen.
 From TV Require Import gen.AppendGen gen.GenerateIR.
-From TV Require proofs.Certs proofs.GenAppend_decl.
+From TV Require proofs.Certs proofs.GenAppend_decl proofs.GenAppend_equiv.
 Import ListNotations.
 Open Scope bool_scope.
 
@@ -412,3 +412,478 @@ Example gen_compute_cert_nonvacuous :
          (IgTerminalNode (IdTensor "1_b" "b" ["i"] [ExhaustAst.Mode_compressed])))
       GlueGen.KernelType_compute = Some f.
 Proof. eexists. vm_compute. reflexivity. Qed.
+
+(** * 6. alignment: the assemble kernel is the evaluate kernel with statements dropped *)
+
+(** [Sub sE sK]: sK is sE with statements dropped (or replaced by an empty block); what is kept is identical *)
+Inductive Sub : stmt -> stmt -> Prop :=
+| Sub_refl s : Sub s s
+| Sub_block ss c ss' c' : SubL ss ss' -> Sub (Block ss c) (Block ss' c')
+| Sub_branch c a b a' b' : Sub a a' -> Sub b b' -> Sub (Branch c a b) (Branch c a' b')
+| Sub_loop c a a' : Sub a a' -> Sub (Loop c a) (Loop c a')
+| Sub_empty s c : Sub s (Block [] c)
+with SubL : list stmt -> list stmt -> Prop :=
+| SubL_nil : SubL [] []
+| SubL_keep e k l l' : Sub e k -> SubL l l' -> SubL (e :: l) (k :: l')
+| SubL_drop e l k : SubL l k -> SubL (e :: l) k.
+
+Lemma SubL_refl l : SubL l l.
+Proof. induction l; constructor; auto. apply Sub_refl. Qed.
+Lemma SubL_drop_all l : SubL l [].
+Proof. induction l; constructor; auto. Qed.
+Lemma SubL_app a b c d : SubL a b -> SubL c d -> SubL (a ++ c) (b ++ d).
+Proof. induction 1; intros HH; cbn; auto; constructor; auto. Qed.
+Lemma SubL_app_left a b x : SubL a b -> SubL (a ++ x) b.
+Proof. intros H. rewrite <- (app_nil_r b). apply SubL_app; auto. apply SubL_drop_all. Qed.
+
+(** what [append(x)] contributes *)
+Definition app_of (x : sb) : list stmt :=
+  match sb_comment x with Some _ => [sb_finalize x] | None => sb_lines x end.
+Lemma append_sb_eq s x : sb_append_sb s x = MkSB (sb_lines s ++ app_of x) (sb_comment s).
+Proof. unfold sb_append_sb, app_of, sb_append_stmt. destruct (sb_comment x); reflexivity. Qed.
+
+Definition rel_sb (s1 s2 : sb) : Prop := sb_comment s1 = sb_comment s2 /\ SubL (sb_lines s1) (sb_lines s2).
+
+Lemma rel_sb_refl s : rel_sb s s.
+Proof. split; auto. apply SubL_refl. Qed.
+Lemma rel_sb_app_of x1 x2 : rel_sb x1 x2 -> SubL (app_of x1) (app_of x2).
+Proof.
+  intros [C L]. unfold app_of, sb_finalize. rewrite <- C. destruct (sb_comment x1); auto.
+  constructor; [|constructor]. apply Sub_block. exact L.
+Qed.
+Lemma rel_append_stmt s1 s2 x1 x2 : rel_sb s1 s2 -> Sub x1 x2 -> rel_sb (sb_append_stmt s1 x1) (sb_append_stmt s2 x2).
+Proof. intros [C L] X. split; cbn; auto. apply SubL_app; auto. constructor; auto. constructor. Qed.
+Lemma rel_append_sb s1 s2 x1 x2 : rel_sb s1 s2 -> SubL (app_of x1) (app_of x2) -> rel_sb (sb_append_sb s1 x1) (sb_append_sb s2 x2).
+Proof. intros [C L] X. rewrite !append_sb_eq. split; cbn; auto. apply SubL_app; auto. Qed.
+Lemma rel_append_sb_left s1 s2 x1 : rel_sb s1 s2 -> rel_sb (sb_append_sb s1 x1) s2.
+Proof. intros [C L]. rewrite append_sb_eq. split; cbn; auto. apply SubL_app_left; auto. Qed.
+Lemma rel_finalize s1 s2 : rel_sb s1 s2 -> Sub (sb_finalize s1) (sb_finalize s2).
+Proof. intros [C L]. apply Sub_block. exact L. Qed.
+Lemma rel_close_branch o1 o2 c i1 i2 : rel_sb o1 o2 -> rel_sb i1 i2 -> rel_sb (sb_close_branch o1 c i1) (sb_close_branch o2 c i2).
+Proof. intros Ho [_ L]. apply rel_append_stmt; auto. apply Sub_branch; [apply Sub_block; exact L | apply Sub_refl]. Qed.
+Lemma rel_close_loop o1 o2 c i1 i2 : rel_sb o1 o2 -> rel_sb i1 i2 -> rel_sb (sb_close_loop o1 c i1) (sb_close_loop o2 c i2).
+Proof. intros Ho [_ L]. apply rel_append_stmt; auto. apply Sub_loop. apply Sub_block. exact L. Qed.
+Lemma rel_close_block o1 o2 c i1 i2 : rel_sb o1 o2 -> rel_sb i1 i2 -> rel_sb (sb_close_block o1 c i1) (sb_close_block o2 c i2).
+Proof. intros Ho [_ L]. apply rel_append_stmt; auto. apply Sub_block. exact L. Qed.
+
+(** relational weakest precondition *)
+Definition wp2 {A B} (x : option A) (y : option B) (R : A -> B -> Prop) : Prop :=
+  forall a b, x = Some a -> y = Some b -> R a b.
+Lemma wp2_some {A B} (a : A) (b : B) (R : A -> B -> Prop) : R a b -> wp2 (Some a) (Some b) R.
+Proof. intros H ? ? E1 E2. injection E1 as <-. injection E2 as <-. exact H. Qed.
+Lemma wp2_bind {A B A' B'} (x : option A) (y : option B) (f : A -> option A') (g : B -> option B') (P : A -> B -> Prop) (Q : A' -> B' -> Prop) :
+  wp2 x y P -> (forall a b, P a b -> wp2 (f a) (g b) Q) -> wp2 (obind x f) (obind y g) Q.
+Proof.
+  intros Hx Hf r s E1 E2. destruct x as [a|]; cbn in E1; [|discriminate]. destruct y as [b|]; cbn in E2; [|discriminate].
+  exact (Hf a b (Hx a b eq_refl eq_refl) r s E1 E2).
+Qed.
+Lemma wp2_same {A} (x : option A) : wp2 x x eq.
+Proof. intros a b E1 E2. rewrite E1 in E2. injection E2 as <-. reflexivity. Qed.
+Lemma wp2_ofold {A B B'} (f : B -> A -> option B) (g : B' -> A -> option B') (l : list A) i i' (I : B -> B' -> Prop) :
+  (forall acc acc' x, I acc acc' -> wp2 (f acc x) (g acc' x) I) -> I i i' -> wp2 (ofold f l i) (ofold g l i') I.
+Proof.
+  intros H. revert i i'. induction l as [|x l IH]; intros i i' Hi r s E1 E2; cbn in *.
+  - injection E1 as <-. injection E2 as <-. exact Hi.
+  - destruct (f i x) as [a|] eqn:Ef; [|discriminate]. destruct (g i' x) as [b|] eqn:Eg; [|discriminate].
+    exact (IH a b (H i i' x Hi a b Ef Eg) r s E1 E2).
+Qed.
+Lemma wp2_left {A B A'} (x : option A) (f : A -> option A') (y : option B) (Q : A' -> B -> Prop) :
+  (forall a, wp2 (f a) y Q) -> wp2 (obind x f) y Q.
+Proof. intros H r s E1 E2. destruct x as [a|]; cbn in E1; [|discriminate]. exact (H a r s E1 E2). Qed.
+
+(** the relation, type directed: identical values, except builders / statements *)
+Class Rel (T : Type) := rel : T -> T -> Prop.
+#[export] Instance rel_sb_i : Rel sb := rel_sb.
+#[export] Instance rel_stmt_i : Rel stmt := Sub.
+#[export] Instance rel_prod {A B} `{Rel A} `{Rel B} : Rel (A * B) := fun p q => rel (fst p) (fst q) /\ rel (snd p) (snd q).
+#[export] Instance rel_leaves : Rel (list (expr * stmt)) := Forall2 (fun p q => fst p = fst q /\ Sub (snd p) (snd q)).
+#[export] Instance rel_default {T} : Rel T | 100 := eq.
+
+Lemma wp2_bind_rel {A A' B'} `{Rel A} (x y : option A) (f : A -> option A') (g : A -> option B') (Q : A' -> B' -> Prop) :
+  wp2 x y rel -> (forall a b, rel a b -> wp2 (f a) (g b) Q) -> wp2 (obind x f) (obind y g) Q.
+Proof. apply wp2_bind. Qed.
+
+(** ** the builder a registered function returns carries its comment (so it is appended as ONE block) *)
+Definition hasc (C : string) (s : sb) : Prop := sb_comment s = Some C.
+Lemma comment_append_stmt s x : sb_comment (sb_append_stmt s x) = sb_comment s. Proof. reflexivity. Qed.
+Lemma comment_append_sb s x : sb_comment (sb_append_sb s x) = sb_comment s. Proof. rewrite append_sb_eq. reflexivity. Qed.
+Lemma comment_close_branch o c i : sb_comment (sb_close_branch o c i) = sb_comment o. Proof. reflexivity. Qed.
+Lemma comment_close_loop o c i : sb_comment (sb_close_loop o c i) = sb_comment o. Proof. reflexivity. Qed.
+Lemma comment_close_block o c i : sb_comment (sb_close_block o c i) = sb_comment o. Proof. reflexivity. Qed.
+
+Ltac cm_solve :=
+  unfold hasc in *;
+  rewrite ?comment_append_stmt, ?comment_append_sb, ?comment_close_branch, ?comment_close_loop, ?comment_close_block;
+  first [assumption | reflexivity].
+
+Ltac cm_any C :=
+  cbv beta;
+  lazymatch goal with
+  | |- wp (Some _) _ => apply wp_some; cm_solve
+  | |- wp None _ => apply wp_none
+  | |- wp (match ?x with Some _ => _ | None => _ end) _ => destruct x; cm_any C
+  | |- wp (if ?c then _ else _) _ => destruct c; cm_any C
+  | |- wp (let '(_, _) := ?p in _) _ => destruct p; cm_any C
+  | |- wp (ofold _ _ _) (hasc _) =>
+      apply wp_ofold; [ let acc := fresh "acc" in let x := fresh "x" in let Ha := fresh "Ha" in intros acc x Ha; cm_any C | cm_solve ]
+  | |- wp (obind ?x ?f) _ =>
+      first [ apply (wp_bind x f (hasc C)); [ solve [cm_any C] | let v := fresh "v" in let Hv := fresh "Hv" in intros v Hv; cm_any C ]
+            | apply wp_bind_any; let v := fresh "v" in intros v; cm_any C ]
+  | |- _ => fail
+  end.
+
+Lemma terminal_comment self o k :
+  wp (to_ir_terminal_expression self o k) (hasc "*** Computation of expression ***").
+Proof.
+  unfold to_ir_terminal_expression. destruct self; try solve [apply wp_none]. cbv zeta.
+  cm_any "*** Computation of expression ***"%string.
+Qed.
+
+Lemma sum_comment rec_ self o k : wp (to_ir_sum rec_ self o k) (hasc "*** Sum ***").
+Proof.
+  unfold to_ir_sum. destruct self; try solve [apply wp_none]. cbv zeta.
+  cm_any "*** Sum ***"%string.
+Qed.
+
+Lemma iteration_comment fuel rec_ iv out nxt o k :
+  wp (to_ir_iteration_variable fuel rec_ (IgIterationNode iv out nxt) o k) (hasc ("*** Iteration over " ++ iv ++ " ***")).
+Proof.
+  unfold to_ir_iteration_variable. cbv zeta.
+  cm_any ("*** Iteration over " ++ iv ++ " ***")%string.
+Qed.
+
+Lemma wp2_refl {A} (x : option A) (R : A -> A -> Prop) : (forall a, R a a) -> wp2 x x R.
+Proof. intros H a b E1 E2. rewrite E1 in E2. injection E2 as <-. apply H. Qed.
+
+Lemma Forall2_rev' {A B} (R : A -> B -> Prop) l1 l2 : Forall2 R l1 l2 -> Forall2 R (rev l1) (rev l2).
+Proof. induction 1; cbn; auto. apply Forall2_app; auto. Qed.
+
+Lemma sub_branch_join (l1 l2 : list (expr * stmt)) :
+  rel l1 l2 ->
+  Sub (Branch_join (map (fun '(c0_, c1_) => (XE c0_, c1_)) l1)) (Branch_join (map (fun '(c0_, c1_) => (XE c0_, c1_)) l2)).
+Proof.
+  intros H. unfold Branch_join. rewrite <- !map_rev. apply Forall2_rev' in H.
+  revert H. generalize (rev l1) (rev l2). intros r1 r2 H.
+  generalize (Sub_refl (Block [] None)). generalize (Block [] None) at 1 3. generalize (Block [] None).
+  induction H as [|[c1 b1] [c2 b2] r1 r2 [Hc Hb] H IH]; intros a2 a1 Ha; cbn [map fold_left]; auto.
+  apply IH. cbn [fst snd] in Hc, Hb. subst c2. cbn [to_expression]. apply Sub_branch; auto.
+Qed.
+
+Lemma wp2_next_output_EA o io :
+  wp2 (Output_next_output o io KernelType_evaluate) (Output_next_output o io KernelType_assemble)
+      (fun v w => fst (fst v) = fst (fst w) /\ SubL (app_of (snd (fst v))) (app_of (snd (fst w))) /\ snd v = snd w /\ snd v = MkSB [] None).
+Proof.
+  intros v w E1 E2. destruct o as [a|b]; cbn [Output_next_output] in E1, E2.
+  - unfold AppendOutput_next_output in E1, E2.
+    destruct (match io with Some iteration_output => _ | None => false end).
+    + injection E1 as <-. injection E2 as <-. cbn. repeat split. constructor.
+    + destruct (forallb _ _); [|discriminate].
+      destruct (BucketOutput_init _ _ _) as [nb|]; cbn [obind] in E1, E2; [|discriminate].
+      cbn [KernelType_is_compute KernelType_eqb orb] in E1, E2. cbn [obind] in E2. injection E2 as <-.
+      match type of E1 with obind (obind ?x _) _ = _ => destruct x as [d|] end; cbn [obind] in E1; [|discriminate].
+      injection E1 as <-. cbn [fst snd]. repeat split. apply SubL_drop_all.
+  - injection E2 as <-. injection E1 as <-. unfold BucketOutput_next_output.
+    destruct io; cbn; repeat split; constructor.
+Qed.
+
+Create HintDb wp2db.
+#[export] Hint Resolve wp2_next_output_EA : wp2db.
+
+Ltac destruct_rel :=
+  cbn [fst snd] in *;
+  repeat match goal with
+         | H : rel _ _ |- _ => unfold rel, rel_prod, rel_default, rel_sb_i, rel_stmt_i in H; cbn [fst snd] in H
+         | H : _ /\ _ |- _ => destruct H
+         | H : ?a = ?b |- _ => first [subst a | subst b]
+         end; cbn [fst snd] in *.
+
+Ltac rel_solve :=
+  cbn [fst snd] in *;
+  lazymatch goal with
+  | |- _ /\ _ => split; rel_solve
+  | |- ?a = ?a => reflexivity
+  | |- @rel _ _ _ _ => unfold rel, rel_prod, rel_default, rel_sb_i, rel_stmt_i, rel_leaves; rel_solve
+  | |- rel_sb (sb_append_stmt _ _) (sb_append_stmt _ _) => apply rel_append_stmt; rel_solve
+  | |- rel_sb (sb_append_sb _ _) (sb_append_sb _ _) =>
+      apply rel_append_sb; [ rel_solve | first [ assumption | apply SubL_refl | apply rel_sb_app_of; rel_solve ] ]
+  | |- rel_sb (sb_close_branch _ _ _) (sb_close_branch _ _ _) => apply rel_close_branch; rel_solve
+  | |- rel_sb (sb_close_loop _ _ _) (sb_close_loop _ _ _) => apply rel_close_loop; rel_solve
+  | |- rel_sb (sb_close_block _ _ _) (sb_close_block _ _ _) => apply rel_close_block; rel_solve
+  | |- rel_sb ?s ?s => apply rel_sb_refl
+  | |- rel_sb _ _ => assumption
+  | |- Sub (sb_finalize _) (sb_finalize _) => apply rel_finalize; rel_solve
+  | |- Sub (Branch_join _) (Branch_join _) => apply sub_branch_join; assumption
+  | |- Sub ?s ?s => apply Sub_refl
+  | |- Sub _ _ => assumption
+  | |- Forall2 _ (_ ++ [_])%list (_ ++ [_])%list => apply Forall2_app; [assumption | constructor; [rel_solve | constructor]]
+  | |- Forall2 _ [] [] => constructor
+  | |- Forall2 _ _ _ => assumption
+  | |- _ => first [assumption | reflexivity | idtac]
+  end.
+
+Ltac w2 :=
+  cbv beta;
+  lazymatch goal with
+  | |- wp2 (Some _) (Some _) _ => apply wp2_some; rel_solve
+  | |- wp2 None _ _ => intros ? ? ? ?; discriminate
+  | |- wp2 ?x ?x (@rel _ _) => apply wp2_refl; intros; rel_solve
+  | |- wp2 (match ?x with Some _ => _ | None => _ end) (match ?x with Some _ => _ | None => _ end) _ => destruct x; w2
+  | |- wp2 (if ?c then _ else _) (if ?c then _ else _) _ => destruct c; w2
+  | |- wp2 (let '(_, _) := ?p in _) (let '(_, _) := ?p in _) _ => destruct p; w2
+  | |- wp2 (let '(_, _) := ?p in _) (let '(_, _) := ?q in _) _ => destruct p; destruct q; destruct_rel; w2
+  | |- wp2 (ofold _ ?l _) (ofold _ ?l _) _ =>
+      apply wp2_ofold; [ let acc := fresh "acc" in let acc' := fresh "acc'" in let x := fresh "x" in let Ha := fresh "Ha" in
+                         intros acc acc' x Ha; destruct_rel; w2
+                       | rel_solve ]
+  | |- wp2 (obind ?x ?f) (obind ?y ?g) _ =>
+      first [ eapply wp2_bind; [ solve [eauto 2 with wp2db]
+                               | let a := fresh "a" in let b := fresh "b" in let Hab := fresh "Hab" in
+                                 intros a b Hab; cbn beta in Hab; destruct_rel; w2 ]
+            | apply wp2_bind_rel; [ first [ solve [apply wp2_same] | solve [apply wp2_refl; intros; rel_solve] | w2 ]
+                                  | let a := fresh "a" in let b := fresh "b" in let Hab := fresh "Hab" in
+                                    intros a b Hab; destruct_rel; w2 ] ]
+  | |- _ => idtac
+  end.
+
+Lemma sum_EA rec_ self o :
+  (forall g o', wp2 (rec_ g o' KernelType_evaluate) (rec_ g o' KernelType_assemble) rel_sb) ->
+  wp2 (to_ir_sum rec_ self o KernelType_evaluate) (to_ir_sum rec_ self o KernelType_assemble) rel_sb.
+Proof.
+  intros IH. destruct (Output_has_sparse_layer o) eqn:Hs.
+  - unfold to_ir_sum. destruct self; try solve [intros ? ? ?; discriminate].
+    cbv zeta. cbn [KernelType_is_compute KernelType_is_assemble KernelType_eqb orb andb negb]. rewrite Hs. cbn [orb].
+    w2.
+  - intros r1 r2 E1 E2. pose proof (sum_comment _ _ _ _ _ E1) as C1.
+    unfold to_ir_sum in E2. destruct self; try discriminate.
+    cbn [KernelType_is_compute KernelType_eqb orb] in E2. rewrite Hs in E2. cbn in E2. injection E2 as <-.
+    split; [exact C1 | apply SubL_drop_all].
+Qed.
+
+Lemma terminal_EA self o :
+  wp2 (to_ir_terminal_expression self o KernelType_evaluate) (to_ir_terminal_expression self o KernelType_assemble) rel_sb.
+Proof.
+  unfold to_ir_terminal_expression. destruct self; try solve [intros ? ? ?; discriminate].
+  cbv zeta. cbn [KernelType_is_compute KernelType_is_assemble KernelType_eqb orb andb negb].
+  apply wp2_bind_rel; [apply wp2_refl; intros; apply rel_sb_refl|].
+  intros s1 s2 Hs. cbv beta.
+  intros r1 r2 E1 E2. cbn [obind] in E2. injection E2 as <-.
+  match type of E1 with obind (obind ?x _) _ = _ => destruct x as [t|] end; cbn [obind] in E1; [|discriminate].
+  injection E1 as <-. apply rel_append_sb_left. exact Hs.
+Qed.
+
+Lemma iteration_EA fuel rec_ iv out nxt o :
+  (forall g o', wp2 (rec_ g o' KernelType_evaluate) (rec_ g o' KernelType_assemble) rel_sb) ->
+  wp2 (to_ir_iteration_variable fuel rec_ (IgIterationNode iv out nxt) o KernelType_evaluate)
+      (to_ir_iteration_variable fuel rec_ (IgIterationNode iv out nxt) o KernelType_assemble) rel_sb.
+Proof.
+  intros IH. destruct (Output_has_sparse_layer o) eqn:Hs.
+  - unfold to_ir_iteration_variable.
+    cbv zeta. cbn [KernelType_is_compute KernelType_is_assemble KernelType_eqb orb andb negb]. rewrite Hs. cbn [negb].
+    w2.
+  - intros r1 r2 E1 E2. pose proof (iteration_comment _ _ _ _ _ _ _ _ E1) as C1.
+    unfold to_ir_iteration_variable in E2. destruct (conv_olayer out); cbn [obind] in E2; [|discriminate].
+    cbn [KernelType_is_compute KernelType_eqb orb negb andb] in E2. rewrite Hs in E2. cbn in E2. injection E2 as <-.
+    split; [exact C1 | apply SubL_drop_all].
+Qed.
+
+Theorem family_EA fuel n : forall g o,
+  wp2 (to_ir_iteration_graph fuel n g o KernelType_evaluate) (to_ir_iteration_graph fuel n g o KernelType_assemble) rel_sb.
+Proof.
+  induction n as [|n IH]; intros g o; cbn [to_ir_iteration_graph]; [intros ? ? ?; discriminate|].
+  destruct g.
+  - apply terminal_EA.
+  - apply iteration_EA. intros g' o'. apply IH.
+  - apply sum_EA. intros g' o'. apply IH.
+Qed.
+#[export] Hint Resolve family_EA : wp2db.
+
+(** [aligned fe fk]: same parameters, same return type, the body of fk is the body of fe with statements dropped *)
+Definition aligned (fe fk : function_definition) : Prop :=
+  match fe, fk with
+  | FunctionDefinition _ ps t be, FunctionDefinition _ qs t' bk => ps = qs /\ t = t' /\ Sub be bk
+  end.
+
+Lemma decl_EA cap o : AppendOutput_write_declarations cap o KernelType_evaluate = AppendOutput_write_declarations cap o KernelType_assemble.
+Proof. reflexivity. Qed.
+Lemma cleanup_EA o : AppendOutput_write_cleanup o KernelType_evaluate = AppendOutput_write_cleanup o KernelType_assemble.
+Proof. reflexivity. Qed.
+
+Theorem gen_assemble_aligned_fuel cap fuel d g :
+  wp2 (generate_ir_fuel cap fuel d g KernelType_evaluate) (generate_ir_fuel cap fuel d g KernelType_assemble) aligned.
+Proof.
+  unfold generate_ir_fuel. cbv zeta. 
+  w2.
+  unfold aligned. split; [reflexivity | split; [reflexivity | rel_solve]].
+Qed.
+
+(** (c, assemble) on the entry point: for EVERY definition and EVERY graph the assemble kernel is the evaluate kernel with
+    statements dropped *)
+Theorem gen_assemble_aligned cap d g fe fa :
+  generate_ir cap d g GlueGen.KernelType_evaluate = Some fe ->
+  generate_ir cap d g GlueGen.KernelType_assemble = Some fa -> aligned fe fa.
+Proof. unfold generate_ir. cbn [conv_kernel_type]. apply gen_assemble_aligned_fuel. Qed.
+
+(** * 7. alignment of the compute kernel with the evaluate kernel *)
+
+Lemma ofold_pres {A B C} (f : B -> A -> option B) (g : B -> C) l :
+  (forall acc x acc', f acc x = Some acc' -> g acc' = g acc) -> forall i r, ofold f l i = Some r -> g r = g i.
+Proof.
+  intros H. induction l as [|x l IH]; intros i r E; cbn in E.
+  - injection E as <-. reflexivity.
+  - destruct (f i x) as [a|] eqn:Ef; [|discriminate]. rewrite (IH a r E). eauto.
+Qed.
+
+Ltac inv_opt :=
+  repeat match goal with
+         | H : Some _ = Some _ |- _ => injection H as H; try subst
+         | H : None = Some _ |- _ => discriminate H
+         | H : obind ?x _ = Some _ |- _ => let E := fresh "E" in destruct x eqn:E; cbn [obind] in H; [|discriminate H]
+         | H : (if ?c then _ else _) = Some _ |- _ => destruct c
+         | H : (let '(_, _) := ?p in _) = Some _ |- _ => destruct p
+         | H : (_, _) = (_, _) |- _ => injection H as H; try subst
+         end.
+
+Lemma decl_comment cap o k r : AppendOutput_write_declarations cap o k = Some r -> sb_comment r = Some "Output initialization"%string.
+Proof.
+  unfold AppendOutput_write_declarations. cbv zeta. intros E.
+  match type of E with obind (ofold ?F ?l ?i) _ = _ => destruct (ofold F l i) as [[s ad]|] eqn:Ef; cbn [obind] in E; [|discriminate];
+    assert (C : sb_comment s = Some "Output initialization"%string) end.
+  { change s with (fst (s, ad)). erewrite (ofold_pres _ (fun acc => sb_comment (fst acc))); [| |exact Ef]; [reflexivity|].
+    intros [s0 ad0] [i m] [s1 ad1] H. cbv beta in H. cbn [fst]. inv_opt; cbn [fst]; subst;
+      rewrite ?comment_append_stmt; try reflexivity; try congruence. }
+  inv_opt; rewrite ?comment_append_stmt; congruence.
+Qed.
+
+Lemma cleanup_comment o k r : AppendOutput_write_cleanup o k = Some r -> sb_comment r <> None.
+Proof.
+  unfold AppendOutput_write_cleanup. cbv zeta. intros E.
+  destruct (KernelType_is_assemble k); [|inv_opt; cbn; congruence].
+  cbn [obind] in E.
+  match type of E with obind (obind (ofold ?F ?l ?i) _) _ = _ => destruct (ofold F l i) as [[[[ps pd] s] ad]|] eqn:Ef; cbn [obind] in E; [|discriminate];
+    assert (C : sb_comment s <> None) end.
+  { change s with (snd (fst (ps, pd, s, ad))).
+    erewrite (ofold_pres _ (fun acc => sb_comment (snd (fst acc)))); [| |exact Ef]; [cbn; congruence|].
+    intros [[[a0 b0] s0] ad0] [i m] [[[a1 b1] s1] ad1] H. cbv beta in H. cbn [fst snd]. inv_opt; cbn [fst snd]; subst;
+      rewrite ?comment_append_stmt; try reflexivity; try congruence. }
+  inv_opt; rewrite ?comment_append_stmt; congruence.
+Qed.
+
+Lemma SubL_drop_prefix p x y : SubL x y -> SubL (p ++ x) y.
+Proof. induction p; cbn; auto. intros H. apply SubL_drop. auto. Qed.
+
+Lemma decl_layers_sub cap t : forall modes i ad l ad',
+  GenAppend_decl.decl_layers cap t i modes ad = Some (l, ad') ->
+  SubL l (GenAppend_decl.compressed_ptr_decls (Tensor_id t) i modes).
+Proof.
+  induction modes as [|m modes IH]; intros i ad l ad' E; cbn in E.
+  - injection E as <- _. constructor.
+  - destruct m; cbn.
+    + eapply IH; eauto.
+    + inv_opt. do 5 apply SubL_drop. apply SubL_keep; [apply Sub_refl|]. eapply IH; eauto.
+Qed.
+
+Lemma decl_EC cap o :
+  wp2 (AppendOutput_write_declarations cap o KernelType_evaluate) (AppendOutput_write_declarations cap o KernelType_compute)
+      (fun a b => SubL (app_of a) (app_of b)).
+Proof.
+  intros a b Ea Eb. pose proof (decl_comment _ _ _ _ Ea) as Ca. pose proof (decl_comment _ _ _ _ Eb) as Cb.
+  unfold app_of. rewrite Ca, Cb. constructor; [|constructor]. apply Sub_block.
+  pose proof (GenAppend_decl.gen_declarations_all cap o KernelType_evaluate eq_refl) as SE. cbv zeta in SE. rewrite Ea in SE. cbn [option_map] in SE.
+  pose proof (GenAppend_decl.gen_declarations_compute_all cap o) as SC. rewrite Eb in SC. cbn [option_map] in SC. injection SC as ->.
+  symmetry in SE. destruct (GenAppend_decl.decl_layers cap (AppendOutput_output o) 0 (Tensor_modes (AppendOutput_output o)) true) as [[l ad]|] eqn:El; cbn [obind] in SE; [|discriminate].
+  injection SE as <-. apply SubL_app_left. eapply decl_layers_sub; eauto.
+Qed.
+
+Lemma cleanup_EC o :
+  wp2 (AppendOutput_write_cleanup o KernelType_evaluate) (AppendOutput_write_cleanup o KernelType_compute)
+      (fun a b => SubL (app_of a) (app_of b)).
+Proof.
+  intros a b Ea Eb. pose proof (cleanup_comment _ _ _ Ea) as Ca.
+  rewrite GenAppend_equiv.gen_cleanup_compute in Eb. injection Eb as <-.
+  unfold app_of. destruct (sb_comment a); [|congruence]. cbn. constructor; [|constructor]. apply Sub_block. apply SubL_drop_all.
+Qed.
+
+Lemma wp2_right_false {A} (x : option A) : wp2 x (Some false) (fun _ b => b = false).
+Proof. intros a b _ E. injection E as <-. reflexivity. Qed.
+#[export] Hint Resolve wp2_right_false decl_EC cleanup_EC : wp2db.
+
+Ltac w2c :=
+  cbv beta iota;
+  lazymatch goal with
+  | |- wp2 (Some (sb_append_sb ?s _)) (Some ?s') (@rel sb _) => apply wp2_some; first [ solve [rel_solve] | apply rel_append_sb_left; rel_solve ]
+  | |- wp2 (Some _) (Some _) _ => apply wp2_some; rel_solve
+  | |- wp2 None _ _ => intros ? ? ? ?; discriminate
+  | |- wp2 ?x ?x (@rel _ _) => apply wp2_refl; intros; rel_solve
+  | |- wp2 (match ?x with Some _ => _ | None => _ end) (match ?x with Some _ => _ | None => _ end) _ => destruct x; w2c
+  | |- wp2 (if ?c then _ else _) (if ?c then _ else _) _ => destruct c; w2c
+  | |- wp2 (if ?c then _ else _) (Some _) _ => destruct c; w2c
+  | |- wp2 (let '(_, _) := ?p in _) (let '(_, _) := ?p in _) _ => destruct p; w2c
+  | |- wp2 (let '(_, _) := ?p in _) (let '(_, _) := ?q in _) _ => destruct p; destruct q; destruct_rel; w2c
+  | |- wp2 (ofold _ ?l _) (ofold _ ?l _) _ =>
+      apply wp2_ofold; [ let acc := fresh "acc" in let acc' := fresh "acc'" in let x := fresh "x" in let Ha := fresh "Ha" in
+                         intros acc acc' x Ha; destruct_rel; w2c
+                       | rel_solve ]
+  | |- wp2 (obind ?x ?f) (obind ?y ?g) _ =>
+      first [ eapply wp2_bind; [ solve [eauto 2 with wp2db]
+                               | let a := fresh "a" in let b := fresh "b" in let Hab := fresh "Hab" in
+                                 intros a b Hab; cbn beta in Hab; destruct_rel; w2c ]
+            | apply wp2_bind_rel; [ first [ solve [apply wp2_same] | solve [apply wp2_refl; intros; rel_solve] | w2c ]
+                                  | let a := fresh "a" in let b := fresh "b" in let Hab := fresh "Hab" in
+                                    intros a b Hab; destruct_rel; w2c ] ]
+  | |- wp2 (obind ?x ?f) (Some _) _ => apply wp2_left; intros ?; w2c
+  | |- _ => idtac
+  end.
+
+Lemma next_output_EC o io : Output_next_output o io KernelType_evaluate = Output_next_output o io KernelType_compute.
+Proof. destruct o; reflexivity. Qed.
+
+Lemma terminal_EC self o : to_ir_terminal_expression self o KernelType_evaluate = to_ir_terminal_expression self o KernelType_compute.
+Proof. reflexivity. Qed.
+
+Lemma sum_EC rec_ self o :
+  (forall g o', wp2 (rec_ g o' KernelType_evaluate) (rec_ g o' KernelType_compute) rel_sb) ->
+  wp2 (to_ir_sum rec_ self o KernelType_evaluate) (to_ir_sum rec_ self o KernelType_compute) rel_sb.
+Proof.
+  intros IH. unfold to_ir_sum. destruct self; try solve [intros ? ? ?; discriminate].
+  cbv zeta. cbn [KernelType_is_compute KernelType_is_assemble KernelType_eqb orb andb negb]. rewrite next_output_EC.
+  w2c.
+Qed.
+
+Lemma iteration_EC fuel rec_ iv out nxt o :
+  (forall g o', wp2 (rec_ g o' KernelType_evaluate) (rec_ g o' KernelType_compute) rel_sb) ->
+  wp2 (to_ir_iteration_variable fuel rec_ (IgIterationNode iv out nxt) o KernelType_evaluate)
+      (to_ir_iteration_variable fuel rec_ (IgIterationNode iv out nxt) o KernelType_compute) rel_sb.
+Proof.
+  intros IH. unfold to_ir_iteration_variable.
+  cbv zeta. cbn [KernelType_is_compute KernelType_is_assemble KernelType_eqb orb andb negb].
+  w2c.
+Qed.
+
+Theorem family_EC fuel n : forall g o,
+  wp2 (to_ir_iteration_graph fuel n g o KernelType_evaluate) (to_ir_iteration_graph fuel n g o KernelType_compute) rel_sb.
+Proof.
+  induction n as [|n IH]; intros g o; cbn [to_ir_iteration_graph]; [intros ? ? ?; discriminate|].
+  destruct g.
+  - rewrite terminal_EC. apply wp2_refl. intros; apply rel_sb_refl.
+  - apply iteration_EC. intros g' o'. apply IH.
+  - apply sum_EC. intros g' o'. apply IH.
+Qed.
+#[export] Hint Resolve family_EC : wp2db.
+
+Theorem gen_compute_aligned_fuel cap fuel d g :
+  wp2 (generate_ir_fuel cap fuel d g KernelType_evaluate) (generate_ir_fuel cap fuel d g KernelType_compute) aligned.
+Proof.
+  unfold generate_ir_fuel. cbv zeta.
+  w2c.
+  unfold aligned. split; [reflexivity | split; [reflexivity | rel_solve]].
+Qed.
+
+(** (c, compute) on the entry point *)
+Theorem gen_compute_aligned cap d g fe fc :
+  generate_ir cap d g GlueGen.KernelType_evaluate = Some fe ->
+  generate_ir cap d g GlueGen.KernelType_compute = Some fc -> aligned fe fc.
+Proof. unfold generate_ir. cbn [conv_kernel_type]. apply gen_compute_aligned_fuel. Qed.
+
+(** [Sub] is not vacuous: it relates only statements of the same shape (or an empty block on the right) *)
+Example sub_not_everything : ~ Sub (Return (IntegerLiteral 0)) (Return (IntegerLiteral 1)).
+Proof. intros H. inversion H. Qed.
